@@ -52,6 +52,12 @@ def programs():
     out.append(("del then rebind", "X = 1\ndel X\nX = 2\nX -l\n", 4, True))
     out.append(("del of a local leaves the module binding", "X = 1\ndef f():\n    X = 2\n    del X\nX -l\n", 5, True))
     out.append(("del of a local of the same name, probe in the function afterwards", "X = 1\ndef f():\n    X = 2\n    del X\n    Y = 0\nX -l\n", 6, True))
+    out.append(("dotted import binds the top-level package", "import os.path\nos -l\n", 2, True))
+    out.append(("dotted import does not bind the submodule name", "import os.path\npath -l\n", 2, False))
+    out.append(("dotted import with as binds only the alias", "import os.path as X\nos -l\n", 2, False))
+    out.append(("from-import star-free form binds the imported name, not the module", "from os import path\nos -l\n", 2, False))
+    out.append(("walrus inside a call argument", "print(X := 1)\nX -l\n", 2, True))
+    out.append(("walrus inside a condition", "if (X := 1):\n    pass\nX -l\n", 3, True))
     out.append(("session name", "S -l\n", 1, True))
     out.append(("unbound", "X -l\n", 1, False))
     return out
